@@ -505,6 +505,14 @@ def check(events, meta):
                 break
     else:
         V.append(("stop-did-not-return", "stop() never returned"))
+    # (4b) a healthy link is never dropped: every close before stop / user disconnect is explained by a scripted fault
+    FAULTS = ("read-error", "write-error", "peer-eof", "peer-reset", "silence")
+    for i, e in enumerate(events[:horizon] if meta.get("answer") is not None else []):
+        if e[1] == "DEV-CLOSE":
+            cid = e[2]
+            why = [x for x in events[:i] if x[1] == "ACTION" and x[2] in FAULTS and x[3] == cid]
+            if not why:
+                V.append((f"healthy-link-dropped:{kind}:{fl}", f"connection {cid} was closed at t={e[0]} although no fault was injected on it and probes were answered (rt={rt})"))
     # (5) every traffic request on a live, made connection is answered
     for i, e in enumerate(events):
         if e[1] == "ACTION" and e[2] == "traffic" and e[3] is not None:
